@@ -529,6 +529,7 @@ class Rig:
         self.hv = self.cv = None
         w = self.world
         w.daemon["container"]["uid"] = os.getuid() if cuser else os.getuid() + 1000
+        w.daemon["container"]["wrap_df"] = not cuser        # long device names on their own line (older df)
         w.daemon["pullable"] = ["img:1"] if env.get("pullable", True) else []
         w.save()
         if not env.get("image", True):
